@@ -8,11 +8,17 @@
    for every file whose chunks tile it and every offset (C05_chunk_tables_agree, C05_chunk_lookup_agree), the TOC digest
    (C05_toc_digest_agree), acceptance on hardlink-free TOCs (C05_stores_accept_hardlink_free) and the independence of the
    layers of one database for every history (C05_db_layers_independent, C05_db_open_fresh).
-   LEFT OPEN (checked on every run by the correspondence check and the store-vs-store oracle only): equality of the two
-   TREES (names, link counts, hardlink identities) for all conforming TOCs outside the refuted classes; this is a
-   simulation proof between the two-pass interpreter (mem_build) and the streaming one (db_build). *)
-From Coq Require Import List ZArith Bool.
-From SV Require Import Model.TreeStores Proofs.TreeStores.
+   TREES: C05_stores_agree_partial proves the complete views equal (names, attributes, xattrs, link counts, offsets, node
+   identities, openability, ChunkEntryForOffset at every probed offset) for every "simple" TOC of any size and shape:
+   known types, distinct cleaned names (any spelling), every entry at top level or below an entry that precedes it,
+   single-chunk files. The proof is a simulation between the two-pass interpreter (mem_build) and the streaming one
+   (db_build), Proofs/TreeAgree.v.
+   LEFT OPEN (checked on every run by the correspondence check and the store-vs-store oracle only): tree equality for
+   conforming TOCs with implicit parent directories, repeated directory entries, an explicit root entry, hardlinks
+   (backward, chains) and multi-chunk files inside the tree walk (their chunk tables are covered per file by
+   C05_chunk_tables_agree / C05_chunk_lookup_agree). *)
+From Coq Require Import List ZArith Bool Lia.
+From SV Require Import Model.TreeStores Proofs.TreeStores Proofs.TreeAgree.
 Import ListNotations.
 Open Scope Z_scope.
 
@@ -70,6 +76,19 @@ Theorem C05_stores_accept_hardlink_free : forall toc,
   mem_build toc <> None /\ db_build toc <> None.
 Proof. intros toc Hf H1. split; [exact (mem_accepts toc Hf)|exact (db_accepts toc Hf H1)]. Qed.
 Print Assumptions C05_stores_accept_hardlink_free.
+
+(* Tree agreement on simple TOCs (any number of entries, any nesting depth, any attributes/xattrs/modtimes, any spelling
+   of the names): both stores accept and show exactly the same canonical view.
+     simple_toc toc := every entry is entry_ok (type dir/reg/symlink/char/block/fifo; permission bits < 2^24; cleaned
+       name not the root; a reg has chunkOffset 0, chunkSize 0 or = size, a chunkDigest unless it has no digest at all,
+       and an offset only when non-empty; other types have no offset)
+       /\ the cleaned names are pairwise distinct
+       /\ every entry is at top level or its parent path is the cleaned name of an EARLIER entry. *)
+Theorem C05_stores_agree_partial : forall toc probes,
+  simple_toc toc -> Forall (fun p => 0 <= p) probes ->
+  view_mem toc probes = view_db false toc probes /\ view_mem toc probes <> None.
+Proof. exact stores_agree_simple. Qed.
+Print Assumptions C05_stores_agree_partial.
 
 (* Layers in one database: whatever is opened, closed or queried on OTHER layers (any history, any candidate ids the
    id generator produces), a live layer shows exactly the same filesystem afterwards. *)
@@ -161,6 +180,29 @@ Example C05_agree_nonvacuous :
 Proof. vm_compute. repeat split. discriminate. Qed.
 
 (* two layers in one database, one closed: the other one still shows its filesystem *)
+(* simple_toc is satisfiable by a nested tree with respelled names, xattrs (one empty-valued) and a non-empty file *)
+Example C05_simple_toc_nonvacuous :
+  let d := E [1; 10; 0] TDir 0 (Some 5) 0 [] 493 3 4 0 0 [(1, 0); (2, 5)] 0 0 0 0 0 0 in
+  let f := E [0; 10; 1; 11] TReg 9 None 0 [] 420 0 0 0 0 [] 100 0 0 0 7 8 in
+  let l := E [12; 2; 13] TSymlink 0 None 6 [] 511 0 0 0 0 [] 0 0 0 0 0 0 in
+  simple_toc [d; f; l] /\ (exists v, view_mem [d; f; l] [0; 8; 9] = Some v /\ length v = 4%nat).
+Proof.
+  split.
+  - split; [|split].
+    + constructor; [|constructor; [|constructor; [|constructor]]].
+      * constructor; [reflexivity|simpl; lia|vm_compute; discriminate|intro H; discriminate H|intros _; reflexivity].
+      * constructor; [reflexivity|simpl; lia|vm_compute; discriminate| |intro H; exfalso; apply H; reflexivity].
+        intros _. simpl. split; [lia|]. split; [reflexivity|]. split; [left; reflexivity|]. split; [left; discriminate|intro H; discriminate H].
+      * constructor; [reflexivity|simpl; lia|vm_compute; discriminate|intro H; discriminate H|intros _; reflexivity].
+    + vm_compute. repeat constructor; simpl; intuition discriminate.
+    + intros i e H. destruct i as [|[|[|i]]]; simpl in H; inversion H; subst.
+      * left. reflexivity.
+      * right. exists 0%nat. eexists. split; [lia|]. split; reflexivity.
+      * left. reflexivity.
+      * destruct i; discriminate.
+  - eexists. split; [vm_compute; reflexivity|reflexivity].
+Qed.
+
 Example C05_bytes_nonvacuous :
   encode_int 300 = [216; 4] /\ encode_int (-1) = [1] /\ decode_int [216; 4] = Some 300 /\ clean [1; 10; 2; 0; 11; 12; 2] = [11].
 Proof. vm_compute. repeat split. Qed.
